@@ -93,4 +93,102 @@ let () = iter_lines (fun l ->
       let p = un pw and s = un salt and it = int_of_string iters and n = nat_of_int (int_of_string dklen) in
       let r = show_res hx (pbkdf2_sha1 p s (z_of_int it) n) in
       if it >= 1 then check2 r (fun () -> hx (pbkdf2_sha1_spec p s (nat_of_int it) n)) else r
+  | ["cbc"; dir; key; iv; data; spl; _al; ip] ->
+      let k = un key and v = un iv and d = un data in
+      if List.length v <> 16 || List.length d mod 16 <> 0 then "BADCASE"
+      else if not (List.mem (List.length k) [16; 24; 32]) then rc_of c_PS_ARG_FAIL
+      else begin
+        let chunks = split_chunks spl d in
+        if List.exists (fun c -> List.length c mod 16 <> 0) chunks then "BADCASE" else
+        let inplace = (ip = "1") in
+        if dir = "e" then check2 (hx (fst (aes_cbc_encrypt_calls k inplace v chunks))) (fun () -> hx (aes_cbc_encrypt_spec k v d))
+        else check2 (hx (fst (aes_cbc_decrypt_calls k inplace v chunks))) (fun () -> hx (aes_cbc_decrypt_spec k v d))
+      end
+  | ["gcm"; mode; key; iv; aad; data; tg; spl; _al; _ip] ->
+      let k = un key and v = un iv and a = un aad and d = un data in
+      if List.length v <> 12 then "BADCASE"
+      else if not (List.mem (List.length k) [16; 24; 32]) then rc_of c_PS_ARG_FAIL
+      else begin
+        let show_dec = show_res (fun o -> match o with Some p -> "ok " ^ hx p | None -> "authfail") in
+        let spec_dec tag () = (match aes_gcm_decrypt_spec k v a d tag with Some p -> "ok " ^ hx p | None -> "authfail") in
+        match mode with
+        | "e" ->
+            let tl = int_of_string tg in
+            if tl < 0 || tl > 16 then "BADCASE" else
+            let m = show_res (fun (ct, tag) -> hx ct ^ " " ^ hx tag) (aes_gcm_encrypt k v a (split_chunks spl d) (nat_of_int tl)) in
+            check2 m (fun () -> let (ct, tag) = aes_gcm_encrypt_spec k v a d (nat_of_int tl) in hx ct ^ " " ^ hx tag)
+        | "d" ->
+            let tag = un tg in
+            if List.length tag > 16 then "BADCASE" else
+            let m = show_dec (aes_gcm_decrypt k v a d tag) in
+            if tag = [] then m else check2 m (spec_dec tag)
+        | "d2" ->
+            let tag = un tg in
+            if List.length tag > 16 then "BADCASE" else
+            let chunks = split_chunks spl d in
+            let rec split_last l = match l with [] -> ([], []) | [x] -> ([], x) | x :: r -> let (a, b) = split_last r in (x :: a, b) in
+            let (init, last) = split_last chunks in
+            check2 (show_dec (aes_gcm_decrypt2 k v a init last tag)) (spec_dec tag)
+        | _ -> "BADCASE"
+      end
+  | ["gcmr"; key; iv1; p1; tl1; iv2; aad2; p2] ->
+      let tl = int_of_string tl1 in
+      if tl < 0 || tl > 16 then "BADCASE" else
+      show_res (fun (ct, tag) -> hx ct ^ " " ^ hx tag) (aes_gcm_reuse (un key) (un iv1) (un p1) (nat_of_int tl) (un iv2) (un aad2) (un p2))
+  | ["chp"; dir; key; nonce; aad; data; _al; _ip] ->
+      (* libsodium-derived one-shot code: no code-shaped model, the extracted RFC 8439 spec is the model *)
+      let k = un key and nn = un nonce and a = un aad and d = un data in
+      if List.length k <> 32 || List.length nn <> 12 then "BADCASE"
+      else if dir = "e" then hx (chachapoly_seal_spec k nn a d)
+      else if List.length d < 16 then rc_of c_PS_ARG_FAIL
+      else (match chachapoly_open_spec k nn a d with Some p -> "ok " ^ hx p | None -> "authfail")
+  | ["cbc"; dir; key; iv; data; spl; _al; ip] ->
+      let k = un key and v = un iv and d = un data in
+      if List.length v <> 16 || List.length d mod 16 <> 0 then "BADCASE"
+      else if not (List.mem (List.length k) [16; 24; 32]) then rc_of c_PS_ARG_FAIL
+      else begin
+        let chunks = split_chunks spl d in
+        if List.exists (fun c -> List.length c mod 16 <> 0) chunks then "BADCASE" else
+        let inplace = (ip = "1") in
+        if dir = "e" then check2 (hx (fst (aes_cbc_encrypt_calls k inplace v chunks))) (fun () -> hx (aes_cbc_encrypt_spec k v d))
+        else check2 (hx (fst (aes_cbc_decrypt_calls k inplace v chunks))) (fun () -> hx (aes_cbc_decrypt_spec k v d))
+      end
+  | ["gcm"; mode; key; iv; aad; data; tg; spl; _al; _ip] ->
+      let k = un key and v = un iv and a = un aad and d = un data in
+      if List.length v <> 12 then "BADCASE"
+      else if not (List.mem (List.length k) [16; 24; 32]) then rc_of c_PS_ARG_FAIL
+      else begin
+        let show_dec = show_res (fun o -> match o with Some p -> "ok " ^ hx p | None -> "authfail") in
+        let spec_dec tag () = (match aes_gcm_decrypt_spec k v a d tag with Some p -> "ok " ^ hx p | None -> "authfail") in
+        match mode with
+        | "e" ->
+            let tl = int_of_string tg in
+            if tl < 0 || tl > 16 then "BADCASE" else
+            let m = show_res (fun (ct, tag) -> hx ct ^ " " ^ hx tag) (aes_gcm_encrypt k v a (split_chunks spl d) (nat_of_int tl)) in
+            check2 m (fun () -> let (ct, tag) = aes_gcm_encrypt_spec k v a d (nat_of_int tl) in hx ct ^ " " ^ hx tag)
+        | "d" ->
+            let tag = un tg in
+            if List.length tag > 16 then "BADCASE" else
+            let m = show_dec (aes_gcm_decrypt k v a d tag) in
+            if tag = [] then m else check2 m (spec_dec tag)
+        | "d2" ->
+            let tag = un tg in
+            if List.length tag > 16 then "BADCASE" else
+            let chunks = split_chunks spl d in
+            let rec split_last l = match l with [] -> ([], []) | [x] -> ([], x) | x :: r -> let (a, b) = split_last r in (x :: a, b) in
+            let (init, last) = split_last chunks in
+            check2 (show_dec (aes_gcm_decrypt2 k v a init last tag)) (spec_dec tag)
+        | _ -> "BADCASE"
+      end
+  | ["gcmr"; key; iv1; p1; tl1; iv2; aad2; p2] ->
+      let tl = int_of_string tl1 in
+      if tl < 0 || tl > 16 then "BADCASE" else
+      show_res (fun (ct, tag) -> hx ct ^ " " ^ hx tag) (aes_gcm_reuse (un key) (un iv1) (un p1) (nat_of_int tl) (un iv2) (un aad2) (un p2))
+  | ["chp"; dir; key; nonce; aad; data; _al; _ip] ->
+      (* libsodium-derived one-shot code: no code-shaped model, the extracted RFC 8439 spec is the model *)
+      let k = un key and nn = un nonce and a = un aad and d = un data in
+      if List.length k <> 32 || List.length nn <> 12 then "BADCASE"
+      else if dir = "e" then hx (chachapoly_seal_spec k nn a d)
+      else if List.length d < 16 then rc_of c_PS_ARG_FAIL
+      else (match chachapoly_open_spec k nn a d with Some p -> "ok " ^ hx p | None -> "authfail")
   | _ -> "BADCASE")
